@@ -56,6 +56,25 @@ def gen(tier, rng):
         if b:
             cases.append("sps " + nal_src(chunkings(rng, bytes([0x67]) + b, 1)[0], rng.random() < 0.5))
             cases.append("rbsp %s 1 0 r3,f,c1,e" % nal_src(chunkings(rng, b, 1)[0], rng.random() < 0.5))
+    # 2b. contexts in which one Exp-Golomb element of the SPS (whichever: sizes, reference-frame counts, offsets, VUI and
+    # HRD fields) is huge - where the SPS parser accepts that - with conforming PPS / slice / SEI payloads parsed against
+    # them: nothing may be sized by a number merely because an accepted parameter set carries it
+    from vlib import bitgen
+    from vlib.props import C11 as _C11
+    for i in range(300 if tier == "quick" else 6000):
+        s1 = g.gen_sps(rng, sps_id=0, small=True, vui_shape={"nal": True, "vcl": False, "cnt": 0, "cnt2": 0, "ps": True} if i % 3 == 0 else None)
+        if len(s1["offsets_ref_frame"]) > 3:
+            s1["offsets_ref_frame"] = s1["offsets_ref_frame"][:2]
+        p1 = g.gen_pps(rng, s1, pps_id=0)
+        big = bitgen.aliased(rng, lambda: g.sps_nal(s1, rng), adds=[3000000, 1 << 28, (1 << 31) - 7, (1 << 32) - 300])
+        cx = "S%s,P%s" % (hx(big), hx(g.pps_nal(p1, rng)))
+        for nt, ri in ((1, 1), (1, 0), (5, 3), (1, 2)):
+            hh = g.gen_slice(rng, s1, p1, nal_type=nt, ref_idc=ri)
+            cases.append("slice %s raw:%s" % (cx, hx(g.slice_nal(hh, rng)[0])))
+        cases.append("pps S%s raw:%s" % (hx(big), hx(g.enc_pps(p1, rng).bytes())))
+        if s1["vui"] is not None:
+            cases.append("bp S%s %s" % (hx(big), hx(_C11.enc_bp(rng, s1))))
+            cases.append("pt S%s 0 %s" % (hx(big), hx(_C11.enc_pt(rng, s1))))
     # 3. extreme values
     for pid in (1, 2):
         sid = pid
